@@ -44,7 +44,12 @@ def index_ok(i, n):
     return z3.And(i >= -n, i < n)
 
 
+RAW_SYMBOLIC_INDEX = [False]     # set while evaluating contract / specification expressions
+
+
 def index_norm(i, n):
+    if RAW_SYMBOLIC_INDEX[0] and not _is_int_lit(i):
+        return i        # specifications index with non-negative symbolic indices only
     if _is_int_lit(i):
         v = i.as_long()
         return z3.IntVal(v) if v >= 0 else n + v
